@@ -312,7 +312,8 @@ def alphabets(thorough: bool):
     A["short_data"] = uniq(["a0b0", "", "00", "03", "ff", "00010203040506070809", sd[:33].hex(), (bytes(range(256)) * 2)[:300].hex()])
     od = env.det_bytes("c12.option", 255)
     # TMP option: "off" (no option), "on:None" (option flag, option_data left None), "on:<hex>"
-    A["opt"] = ["off", "on:None", "on:", "on:01", "on:010203", "on:" + od.hex()]
+    # "off:<hex>": option data handed over while the option flag is left at its default (off): nothing of it goes on the wire
+    A["opt"] = ["off", "on:None", "on:", "on:01", "on:010203", "on:" + od.hex(), "off:0102"]
     return A
 
 
@@ -508,12 +509,15 @@ def make_kinds(thorough: bool):
                 opcode=TMPService[op],
                 is_reliable=fv["is_reliable"],
                 is_confirmed=fv["is_confirmed"],
-                has_option=opt != "off",
                 request_id=fv["request_id"],
                 destination_ip=_ip(fv["dst_subnet"], fv["dst_id"]),
             )
-            if opt.startswith("on:") and opt != "on:None":
-                kw["option_data"] = bytes.fromhex(opt[3:])
+            if opt.startswith("on"):
+                kw["has_option"] = True
+            elif opt == "off":
+                kw["has_option"] = False
+            if ":" in opt and opt != "on:None":
+                kw["option_data"] = bytes.fromhex(opt.split(":", 1)[1])
             if has_src:
                 kw["source_ip"] = _ip(fv["src_subnet"], fv["src_id"])
             if is_msg:
@@ -529,9 +533,9 @@ def make_kinds(thorough: bool):
             e = {
                 "is_reliable": fv["is_reliable"],
                 "is_confirmed": fv["is_confirmed"],
-                "has_option": opt != "off",
+                "has_option": opt.startswith("on"),
                 # zero-length option data: None and b"" are the same value
-                "option_data": "" if opt in ("off", "on:None") else opt[3:],
+                "option_data": "" if (opt.startswith("off") or opt == "on:None") else opt[3:],
                 "opcode": op,
                 "request_id": fv["request_id"],
                 "destination_ip": (fv["dst_subnet"], fv["dst_id"]),
@@ -567,7 +571,7 @@ def make_kinds(thorough: bool):
             return o
 
         def opbytes(fv, op=op):
-            return bytes([(0x80 if fv["is_confirmed"] else 0) | (0x40 if fv["opt"] != "off" else 0), TMP_OP[op]])
+            return bytes([(0x80 if fv["is_confirmed"] else 0) | (0x40 if fv["opt"].startswith("on") else 0), TMP_OP[op]])
 
         # thorough sub-product: all flag / option / content combinations x request ids, addresses at both bases
         product = ["is_reliable", "is_confirmed", "opt", "request_id", "text" if is_msg else ("short_data" if is_short else "result_code")]
